@@ -7,6 +7,7 @@ import (
 	"go/token"
 	"go/types"
 	"os"
+	"strings"
 
 	"golang.org/x/tools/go/ssa"
 )
@@ -253,6 +254,10 @@ func (sa *Safe) unop(fr *frame, st *State, x *ssa.UnOp) {
 		lv := sa.loadM(fr, st, v.Obj, v.Path, x.Type(), exprText(x))
 		if g, ok := x.X.(*ssa.Global); ok && g.Pkg != nil && relPkg(g.Pkg.Pkg) == "logger" && lv.Kind == avPtr {
 			// premise: the logger handles are set once by logger.init from logrus.WithFields (never nil) and never written again (C19)
+			lv.NonNil = true
+		}
+		if g, ok := x.X.(*ssa.Global); ok && stdSentinelError(g) {
+			// premise: the sentinel errors of the standard library (io.EOF, io.ErrUnexpectedEOF, ...) are never nil
 			lv.NonNil = true
 		}
 		fr.regs[x] = lv
@@ -733,4 +738,18 @@ func (sa *Safe) sliceOp(fr *frame, st *State, x *ssa.Slice) AVal {
 		}
 	}
 	return r
+}
+
+
+// stdSentinelError: a package-level error variable of a standard-library package named EOF or Err...
+// (initialised by errors.New and, by convention, never assigned again).
+func stdSentinelError(g *ssa.Global) bool {
+	if g.Pkg == nil || g.Pkg.Pkg == nil || IsRepoPkg(g.Pkg.Pkg) || strings.Contains(g.Pkg.Pkg.Path(), ".") {
+		return false
+	}
+	pt, ok := g.Type().(*types.Pointer)
+	if !ok || pt.Elem().String() != "error" {
+		return false
+	}
+	return g.Name() == "EOF" || strings.HasPrefix(g.Name(), "Err")
 }
